@@ -6,6 +6,9 @@ from concurrent.futures import ThreadPoolExecutor
 VERIF = os.path.dirname(os.path.dirname(os.path.abspath(__file__)))
 REPO = os.environ.get("VERIF_REPO", "/repo")
 BUILD = os.path.join(VERIF, "build")
+# Runs against a scratch tree (VERIF_REPO=<tree with a seeded change>) must not overwrite the evidence of the real tree:
+# VERIF_OUT=<dir> redirects evidence/ and replays/ there.
+OUT = os.environ.get("VERIF_OUT", VERIF)
 NCPU = os.cpu_count() or 16
 
 COMMON = ["-std=c++17", "-g", "-fPIC", "-DONETBB_VERIF=1", "-mrtm", "-mwaitpkg", "-pthread",
@@ -406,7 +409,7 @@ class Check:
         self.workdir = os.path.join(BUILD, "run-%s-%d" % (prop, os.getpid()))
         shutil.rmtree(self.workdir, ignore_errors=True)
         os.makedirs(self.workdir, exist_ok=True)
-        for old in glob.glob(os.path.join(VERIF, "replays", "%s-*.json" % prop)):
+        for old in glob.glob(os.path.join(OUT, "replays", "%s-*.json" % prop)):
             try:
                 os.unlink(old)
             except OSError:
@@ -493,8 +496,8 @@ class Check:
 
     def finish(self):
         wall = time.time() - self.t0
-        os.makedirs(os.path.join(VERIF, "evidence"), exist_ok=True)
-        os.makedirs(os.path.join(VERIF, "replays"), exist_ok=True)
+        os.makedirs(os.path.join(OUT, "evidence"), exist_ok=True)
+        os.makedirs(os.path.join(OUT, "replays"), exist_ok=True)
         for e in self.findings.entries:
             if e.get("status") == "known" and e["id"] in self.known:
                 print("KNOWN-FINDING: property=%s %s (%s; seen %d times in this run)" % (e.get("property"), e["id"], e.get("what", "")[:600], self.known[e["id"]]))
@@ -505,7 +508,7 @@ class Check:
             if v["key"] in seen_keys and len(replay_paths) >= 10:
                 continue
             seen_keys.add(v["key"])
-            p = os.path.join(VERIF, "replays", "%s-%d-%d.json" % (self.prop, self.seed, i))
+            p = os.path.join(OUT, "replays", "%s-%d-%d.json" % (self.prop, self.seed, i))
             json.dump({"property": self.prop, "tier": self.tier, "seed": self.seed, **v}, open(p, "w"), indent=1)
             replay_paths.append(p)
             print("VIOLATION property=%s replay=%s key=%s" % (self.prop, p, v["key"]))
@@ -534,7 +537,7 @@ class Check:
         if rc == 0 and (cov["evaluations"] < 1 or cov["distinct_nontrivial"] < 2):
             print("HARNESS-FAILURE property=%s observed too little: evaluations=%d distinct=%d" % (self.prop, cov["evaluations"], cov["distinct_nontrivial"]))
             rc = 2
-        json.dump(ev, open(os.path.join(VERIF, "evidence", "%s.json" % self.prop), "w"), indent=1)
+        json.dump(ev, open(os.path.join(OUT, "evidence", "%s.json" % self.prop), "w"), indent=1)
         shutil.rmtree(self.workdir, ignore_errors=True)
         print("%s %s: %s  evaluations=%d distinct_nontrivial=%d inconclusive=%d known=%s wall=%.0fs" % (
             self.prop, self.tier, {0: "HELD", 1: "VIOLATED", 2: "INCONCLUSIVE/HARNESS-FAILURE"}[rc], cov["evaluations"],
